@@ -131,6 +131,10 @@ func (r *dataReader) Read(b []byte) (n int, err error) {
 				r.state = stateBeginLine
 				break
 			}
+			if c == '\r' {
+				// Still right after a CR: \r\r\n ends a line too.
+				break
+			}
 			r.state = stateData
 		case stateData:
 			if c == '\r' {
